@@ -778,7 +778,9 @@ fn gen_filter(r: &mut Rng, w: &World) -> (F, bool) {
 fn gen_bind(r: &mut Rng, w: &World) -> Req {
     let base = w.basedn.clone();
     // who
-    let accounts: Vec<&Principal> = w.ps.iter().collect();
+    // mostly persons (the principals that can hold POSIX / application passwords)
+    let persons: Vec<&Principal> = w.ps.iter().filter(|p| p.kind == Kind::Person).collect();
+    let accounts: Vec<&Principal> = if r.chance(3, 4) && !persons.is_empty() { persons } else { w.ps.iter().collect() };
     let p = accounts[r.below(accounts.len() as u64) as usize].clone();
     let spn = format!("{}@example.com", p.name);
     let kind = r.below(20);
@@ -812,7 +814,19 @@ fn gen_bind(r: &mut Rng, w: &World) -> Req {
         5 => format!("uuid={}", p.uuid),
         _ => format!("cn={nm}"),
     };
-    let app = if kind >= 14 { Some(if r.chance(1, 8) { "c40nosuchapp".to_string() } else { w.apps[r.below(w.apps.len() as u64) as usize].name.clone() }) } else { None };
+    let app = if kind >= 14 {
+        Some(if r.chance(1, 8) {
+            "c40nosuchapp".to_string()
+        } else if !p.app_pws.is_empty() && r.chance(2, 3) {
+            // an application this person holds a password for (member of its group or not)
+            let au = p.app_pws[r.below(p.app_pws.len() as u64) as usize].0;
+            w.apps.iter().find(|a| a.uuid == au).map(|a| a.name.clone()).unwrap_or_else(|| "c40app0".into())
+        } else {
+            w.apps[r.below(w.apps.len() as u64) as usize].name.clone()
+        })
+    } else {
+        None
+    };
     let with_base = r.chance(1, 2);
     let mut dn = rdn;
     if let Some(a) = &app {
